@@ -224,6 +224,11 @@ pub fn parse_glob(p: &str) -> GlobParse {
                     j += 1;
                 }
                 let start = j;
+                // A ']' directly after '[' or '[!' is the first member of the
+                // set, not its end (POSIX fnmatch, sh, and the glob crate agree).
+                if j < c.len() && c[j] == ']' {
+                    j += 1;
+                }
                 while j < c.len() && c[j] != ']' {
                     j += 1;
                 }
